@@ -146,7 +146,7 @@ func genSpec(r *rand.Rand, cfg c06wl.Config, nSteps int) (c06wl.Spec, []string) 
 			case b.handle && (b.wrote == len(b.plan) || roll < 64):
 				b.handle = false
 				add(c06wl.Step{Op: "closef", Key: k})
-			case roll < 70:
+			case roll < 70 && (b.handle || r.Intn(2) == 0):
 				if b.banned {
 					add(c06wl.Step{Op: "unban", Key: k})
 				} else {
@@ -154,7 +154,15 @@ func genSpec(r *rand.Rand, cfg c06wl.Config, nSteps int) (c06wl.Spec, []string) 
 				}
 				b.banned = !b.banned
 			case roll < 80:
+				// prefer a metadata kind this blob does not have yet: the first value of a
+				// kind has no previous file to fall back on
 				kind := mdKinds[r.Intn(3)]
+				for _, c := range r.Perm(3) {
+					if !b.md[mdKinds[c]] {
+						kind = mdKinds[c]
+						break
+					}
+				}
 				b.md[kind] = true
 				add(c06wl.Step{Op: "setmd", Key: k, MD: kind, Data: mdValue(r, kind, b.plan, k)})
 			case roll < 84:
@@ -168,6 +176,14 @@ func genSpec(r *rand.Rand, cfg c06wl.Config, nSteps int) (c06wl.Spec, []string) 
 			switch {
 			case roll < 35:
 				kind := mdKinds[r.Intn(3)]
+				if r.Intn(2) == 0 {
+					for _, c := range r.Perm(3) {
+						if !b.md[mdKinds[c]] {
+							kind = mdKinds[c]
+							break
+						}
+					}
+				}
 				b.md[kind] = true
 				add(c06wl.Step{Op: "setmd", Key: k, MD: kind, Data: mdValue(r, kind, b.plan, k)})
 			case roll < 45:
@@ -690,6 +706,11 @@ func runWorkload(t *testing.T, bin, base string, w workload, run *ev.Run, killRa
 					}
 				}
 			}
+			if resp.SecondOpenErr != "" || !sameStrings(resp.SecondListAny, resp.ListAny) || !sameStrings(resp.SecondListComplete, resp.ListComplete) {
+				addF("second-restart-after-recovery-differs/"+wk, map[string]interface{}{
+					"second_open_error": resp.SecondOpenErr, "first_list": resp.ListAny, "second_list": resp.SecondListAny,
+					"first_list_complete": resp.ListComplete, "second_list_complete": resp.SecondListComplete})
+			}
 			if resp.Reserved != sumSizes {
 				addF("reserved-size-accounting-differs/"+wk, map[string]interface{}{"reserved": resp.Reserved, "sum_of_blob_sizes": sumSizes})
 			}
@@ -766,6 +787,18 @@ func runWorkload(t *testing.T, bin, base string, w workload, run *ev.Run, killRa
 		}
 	}
 	return res
+}
+
+func sameStrings(a, b []string) bool {
+	if len(a) != len(b) {
+		return false
+	}
+	for i := range a {
+		if a[i] != b[i] {
+			return false
+		}
+	}
+	return true
 }
 
 func keysOf(m map[string][]byte) []string {
